@@ -32,7 +32,9 @@ Definition g_cov_sph (y : nat -> nat -> T) (s : nat -> T) : T :=
 Definition vmf_r (y : nat -> nat -> T) (s : nat -> T) (d : nat) : T := bsum P N (fun n => omul P (s n) (y n d)).
 Definition vmf_mean (y : nat -> nat -> T) (s : nat -> T) (d : nat) : T :=
   odiv P (vmf_r y s d) (omax P (rnorm (vmf_r y s)) tiny).
-Definition vmf_rbar (y : nat -> nat -> T) (s : nat -> T) : T := odiv P (rnorm (vmf_r y s)) (bsum P N s).
+(* r_bar = minimum(norm / sum s, 1): the mean resultant length cannot exceed one, rounding may *)
+Definition vmf_rbar (y : nat -> nat -> T) (s : nat -> T) : T :=
+  omin P (odiv P (rnorm (vmf_r y s)) (bsum P N s)) (o1 P).
 (* Banerjee et al. 2005, (4.4), then np.clip(., min, max) = minimum(maximum(., min), max) *)
 Definition vmf_kappa_raw (rb : T) : T :=
   odiv P (osub P (omul P rb (onat P D)) (omul P rb (omul P rb rb))) (osub P (o1 P) (omul P rb rb)).
